@@ -92,7 +92,7 @@ def run(module, cfg=None, workers=16, env=None, timeout=3600, xss="256m", xmx=No
     """Run TLC on spec/<module>.tla with spec/<cfg>. Raises TlcError on machinery failure."""
     cwd = cwd or SPEC_DIR
     meta = tempfile.mkdtemp(prefix="tlcmeta_")
-    cmd = ["java", "-XX:+UseParallelGC", f"-Xss{xss}"]
+    cmd = ["java", "-XX:+UseParallelGC", f"-Xss{xss}", f"-Djava.io.tmpdir={meta}"]     # TLC's own tlc-* scratch goes with the metadir
     if xmx:
         cmd.append(f"-Xmx{xmx}")
     cmd += ["-cp", f"{JAR}:{DEPS}", "tlc2.TLC", "-workers", str(workers), "-metadir", meta, "-noGenerateSpecTE"]
